@@ -19,8 +19,8 @@ PROFILES = {
     'counters': dict(batch=1, submit=5, update=3, groups=3, jobs=4, commit=4, cancel=6, delete=1, instance=1, deactivate=2,
                      schedule=9, creating=1, started=5, complete=12, unschedule=2, sched_loop=7, cancel_ready=3, cancel_creating=1,
                      cancel_running=2, cancel_orphans=1, cleanup_staging=2, cleanup_cancellable=2, tick=1),
-    'billing': dict(batch=1, submit=5, cancel=1, instance=2, deactivate=2, schedule=6, creating=1, started=6, complete=6, billing=8,
-                    unschedule=2, sched_loop=2, compact=3, compact_by_date=3, tick=6, daytick=2),
+    'billing': dict(batch=1, submit=4, cancel=1, instance=1, deactivate=2, schedule=5, creating=1, jp_schedule=1, activate=1, started=9,
+                    complete=9, billing=9, unschedule=2, sched_loop=3, burst=8, compact=3, compact_by_date=3, tick=9, daytick=2),
     'lifecycle': dict(batch=1, submit=6, update=1, jobs=2, commit=2, cancel=3, instance=2, deactivate=2, schedule=6, schedule_any=3,
                       creating=2, started=5, started_fresh=2, complete=9, unschedule=3, sched_loop=3, cancel_ready=2, cancel_running=2,
                       cancel_orphans=2, tick=1),
@@ -92,6 +92,8 @@ def strategies(profile, max_ops=40):
             return st.tuples(st.just('billing'), small, st.integers(0, 255), dt).map(list)
         if kind == 'jp_schedule':
             return st.tuples(st.just('jp_schedule'), small).map(list)
+        if kind == 'burst':
+            return st.tuples(st.just('burst'), st.sampled_from([0, 0, 0, 1]), st.integers(0, 30), st.sampled_from([1, 100, 1000])).map(list)
         if kind == 'unschedule':
             return st.tuples(st.just('unschedule'), st.integers(0, 12)).map(list)
         if kind == 'sched_loop':
@@ -102,13 +104,14 @@ def strategies(profile, max_ops=40):
             return st.just(['tick', 86_400_000])
         return st.just([kind])
     kinds = []
-    for k, w in W.items():
+    # Hypothesis favours the first elements of sampled_from: put the heaviest (most useful) ops first
+    for k, w in sorted(W.items(), key=lambda kv: -kv[1]):
         kinds += [k] * w
     op = st.sampled_from(kinds).flatmap(mk)
     prefix = [['instance', 0, True], ['batch', 0, 0]]
     cfg = st.fixed_dictionaries({'n_tokens': st.sampled_from([1, 2, 5]), 'draws': st.lists(st.integers(0, 15), min_size=1, max_size=8)})
     first = st.tuples(st.sampled_from(['submit', 'submit', 'update']), st.just(0), groups, jobs).map(list)
-    return st.builds(lambda c, f, ops: {'cfg': c, 'ops': prefix + [f] + ops}, cfg, first, st.lists(op, min_size=3, max_size=max_ops))
+    return st.builds(lambda c, f, ops: {'cfg': c, 'ops': prefix + [f] + ops}, cfg, first, st.lists(op, min_size=8, max_size=max_ops))
 
 
 def classify(w):
@@ -134,7 +137,7 @@ def classify(w):
             cls.add('dup_complete')
         if k == 'deactivate' and ok:
             cls.add('deactivate')
-        if k == 'sched_loop' and r.get('new_attempts'):
+        if k in ('sched_loop', 'burst') and r.get('new_attempts'):
             cls.add('scheduler_scheduled')
         if k == 'schedule' and ok:
             cls.add('direct_schedule')
